@@ -839,9 +839,120 @@ fn chainmul1024(rng: &mut Rng, iters: u64) {
     }
 }
 
+
+/// C10 probe (bounded stand-in: the FFT / NTT layers are not under contract): convolve_modn in the regime without
+/// wrap-around against the schoolbook product, Poly::{from_roots, eval, multi_eval, roots_eval} against their definitions
+fn polyops(rng: &mut Rng, iters: u64) {
+    use yamaquasi::arith_fft::convolve_modn;
+    use yamaquasi::arith_montgomery::{MInt, ZmodN};
+    use yamaquasi::arith_poly::{Poly, PolyRing};
+    let rounds = (iters / 100).clamp(2, 12);
+    for round in 0..rounds {
+        for bits in [61u32, 140, 151, 160, 190, 300, 480] {
+            // a random odd modulus of that size
+            let mut n = Uint::ONE;
+            for _ in 0..bits / 60 + 1 { n = (n << 60u32) + Uint::from(rng.word() >> 4); }
+            n = (n >> (n.bits() - bits)) | Uint::ONE | (Uint::ONE << (bits - 1));
+            let zn = ZmodN::new(n);
+            let mut elem = |rng: &mut Rng| -> MInt {
+                match rng.next() % 8 {
+                    6 => { let mut m = MInt::default(); m.0[0] = 1 + rng.next() % 3; m }
+                    7 => { let mut m = MInt::default(); m.0[0] = 1; m }
+                    0 => zn.from_int(n - Uint::ONE),
+                    1 => zn.from_int(Uint::ONE),
+                    2 => zn.from_int(Uint::ZERO),
+                    3 => zn.from_int(n - Uint::from(1 + rng.next() % 5)),
+                    _ => { let mut x = Uint::ZERO; for _ in 0..9 { x = (x << 60u32) + Uint::from(rng.word() >> 4); } zn.from_int(x % n) }
+                }
+            };
+            // 1. convolution without wrap-around
+            let size = 4usize << (rng.next() % 5 + (round % 3));
+            let lp = 1 + (rng.next() as usize) % (size / 2);
+            let lq = 1 + (rng.next() as usize) % (size / 2);
+            let pv: Vec<MInt> = (0..lp).map(|_| elem(rng)).collect();
+            let mut qv: Vec<MInt> = (0..lq).map(|_| elem(rng)).collect();
+            if rng.next() % 3 == 0 {
+                // a monomial with the raw word 1 as coefficient: its transform holds the element -1 = 2^(64N)
+                for x in qv.iter_mut() { *x = MInt::default(); }
+                qv[(rng.next() as usize) % lq].0[0] = 1;
+            }
+            let offset = (rng.next() as usize) % lp;
+            let rl = lp + lq - 1 - offset;
+            let mut res = vec![MInt::default(); rl];
+            let r = catch_unwind(AssertUnwindSafe(|| convolve_modn(&zn, size, &pv, &qv, &mut res, offset)));
+            if r.is_err() {
+                fail("polyops", format!("convolve_modn(n = {n} ({bits} bits), size {size}, lengths {lp} x {lq}, offset {offset}): panic"));
+            }
+            for i in 0..rl {
+                let k = i + offset;
+                let mut want = zn.zero();
+                for j in 0..lp { if k >= j && k - j < lq { want = zn.add(&want, &zn.mul(&pv[j], &qv[k - j])); } }
+                if zn.to_int(res[i]) != zn.to_int(want) {
+                    fail("polyops", format!("convolve_modn(n = {n} ({bits} bits), size {size}, lengths {lp} x {lq}, offset {offset}): coefficient {k} is {}, schoolbook {}; p = {:?} q = {:?}",
+                        zn.to_int(res[i]), zn.to_int(want), pv.iter().map(|x| zn.to_int(*x)).collect::<Vec<_>>(), qv.iter().map(|x| zn.to_int(*x)).collect::<Vec<_>>()));
+                }
+            }
+            // 1b. polynomial products (equal lengths) and the middle product against the schoolbook product
+            {
+                let l = match rng.next() % 5 { 0 => 2 + (rng.next() as usize) % 8, 1 => 27 + (rng.next() as usize) % 4, 2 => 33, 3 => 64, _ => 2 + (rng.next() as usize) % 90 };
+                let pv: Vec<MInt> = (0..l).map(|_| elem(rng)).collect();
+                let qv: Vec<MInt> = (0..l).map(|_| elem(rng)).collect();
+                let mut school = vec![zn.zero(); 2 * l - 1];
+                for i in 0..l { for j in 0..l { school[i + j] = zn.add(&school[i + j], &zn.mul(&pv[i], &qv[j])); } }
+                let r = catch_unwind(AssertUnwindSafe(|| {
+                    let ring = PolyRing::new(&zn, l.max(28));
+                    let (pp, qq) = (Poly::new(&ring, pv.clone()), Poly::new(&ring, qv.clone()));
+                    let k = Poly::mul_karatsuba(&pp, &qq).c;
+                    let f = Poly::mul_fft(&pp, &qq).c;
+                    (k, f)
+                }));
+                match r {
+                    Err(_) => fail("polyops", format!("Poly::mul_karatsuba / mul_fft (n of {bits} bits, length {l}): panic")),
+                    Ok((k, f)) => {
+                        for i in 0..2 * l - 1 {
+                            for (name, got) in [("mul_karatsuba", &k), ("mul_fft", &f)] {
+                                if i >= got.len() || zn.to_int(got[i]) != zn.to_int(school[i]) {
+                                    fail("polyops", format!("Poly::{name} (n = {n}, length {l}): coefficient {i} is {:?}, schoolbook {}", got.get(i).map(|x| zn.to_int(*x)), zn.to_int(school[i])));
+                                }
+                            }
+                        }
+                    }
+                }
+            }
+            // 2. polynomial from roots, evaluation, multipoint evaluation, roots_eval
+            let na = 1 + (rng.next() as usize) % (if round % 2 == 0 { 12 } else { 70 });
+            let nb = 1 + (rng.next() as usize) % (if round % 3 == 0 { 100 } else { 20 });
+            let av: Vec<MInt> = (0..na).map(|_| elem(rng)).collect();
+            let bv: Vec<MInt> = (0..nb).map(|_| elem(rng)).collect();
+            let naive = |x: &MInt| -> MInt { let mut v = zn.one(); for a in &av { v = zn.mul(&v, &zn.sub(x, a)); } v };
+            let r = catch_unwind(AssertUnwindSafe(|| {
+                let ring = PolyRing::new(&zn, na.max(nb));
+                let pol = Poly::from_roots(&ring, &av);
+                let single: Vec<MInt> = bv.iter().map(|b| pol.eval(*b)).collect();
+                let re = Poly::roots_eval(&zn, &av, &bv);
+                (single, re)
+            }));
+            match r {
+                Err(_) => fail("polyops", format!("Poly::from_roots / eval / roots_eval (n of {bits} bits, {na} roots, {nb} points): panic")),
+                Ok((single, re)) => {
+                    for j in 0..nb {
+                        let want = zn.to_int(naive(&bv[j]));
+                        for (name, got) in [("from_roots + eval", &single), ("roots_eval", &re)] {
+                            if got.len() != nb || zn.to_int(got[j]) != want {
+                                fail("polyops", format!("{name} (n = {n}, {na} roots, {nb} points): value at point {j} is {:?}, product of (b - a_i) is {want}", got.get(j).map(|x| zn.to_int(*x))));
+                            }
+                        }
+                    }
+                }
+            }
+        }
+    }
+}
+
 pub fn run(case: &str, rng: &mut Rng, iters: u64) -> bool {
     match case {
         "pp1" => pp1_case(),
+        "polyops" => polyops(rng, iters),
         "chainmul1024" => chainmul1024(rng, iters),
         "pm1base" => pm1base_case(rng, iters),
         "invmod64" => invmod64_case(rng, iters),
